@@ -70,7 +70,13 @@ impl G<'_, '_> {
         }
     }
     fn none_left(&mut self) -> Expr {
-        match self.d.below(3) {
+        match self.d.below(8) {
+            // left operands that are special in some way but are NOT None: the right operand must still be evaluated
+            3 => Expr::Value(Value::Float(f64::NAN)),
+            4 => Expr::Vec(vec![Expr::Value(Value::Float(f64::NAN))]),
+            5 => Expr::Value(Value::Float(-0.0)),
+            6 => Expr::Value(Value::Vec(vec![Value::None])),
+            7 => Expr::div(Expr::Value(Value::Float(0.0)), Expr::Value(Value::Float(0.0))),
             0 => Expr::Value(Value::None),
             1 => Expr::index(Expr::reff("vm"), Index::Map("nokey".into())),
             _ => {
@@ -247,6 +253,22 @@ fn family() -> Vec<EvalCase> {
                 out.push(mk_case(Expr::iif(form(a), form(b), form(c))));
                 out.push(mk_case(Expr::iif(form(a), form(c), form(b))));
             }
+        }
+    }
+    for special in [
+        Value::Float(f64::NAN),
+        Value::Float(-0.0),
+        Value::Vec(vec![Value::Float(f64::NAN)]),
+        Value::Vec(vec![Value::None]),
+        Value::String(String::new()),
+        Value::Bool(false),
+        Value::Vec(vec![]),
+        Value::Int(0),
+        Value::None,
+    ] {
+        for b in [2usize, 4, 5, 8] {
+            out.push(mk_case(Expr::eq(Expr::Value(special.clone()), form(b))));
+            out.push(mk_case(Expr::neq(Expr::Value(special.clone()), form(b))));
         }
     }
     for kind in BINARY_KINDS {
